@@ -151,6 +151,9 @@ def concretise(dom, model, limit=64):
         try:
             if kind in ("int", "real"):
                 out[name] = num(info)
+            elif kind == "enum":
+                c, table = info
+                out[name] = table.get(num(c), "?")
             elif kind == "array":
                 n, dtype, fre, fim = info
                 nn = n if isinstance(n, int) else num(n.e)
